@@ -56,6 +56,9 @@ impl Property for C17 {
     fn assumptions(&self) -> Vec<String> {
         vec!["type identifiers are compared as token strings after removing the configured module prefix".into(), "a property is 'required' exactly when its field carries no serde default".into()]
     }
+    fn fuzz_gen(&self, g: &mut G) -> Option<Value> {
+        Some(gen_c17_case(g))
+    }
     fn generate(&self, tier: Tier, seed: u64) -> Vec<Value> {
         gen::draw(seed, "C17", tier.pick(350, 12000), gen_c17_case)
     }
